@@ -926,7 +926,6 @@ impl<'a> Parser<'a> {
         let have_catch = self.match_token(TokenKind::Catch);
 
         if have_catch {
-            self.emit_byte(OpCode::PopExcHandler as u8);
             if !self.match_token(TokenKind::Identifier) {
                 self.error_at_current("Expected exception variable name.");
                 return;
